@@ -5,20 +5,30 @@
 EXTENDS Correction, Json, IOUtils, SequencesExt
 TypesAll == {"credit-note", "corrective", "debit-note", "standard", ""}
 States == {"signed-stamped", "signed", "draft", "nocode"}
-Combos == {[type |-> t, reason |-> a, ext |-> b, stamps |-> c, series |-> d, date |-> e, copytax |-> f, state |-> s] :
+\* partial: of the stamps the merged definitions ask for (regime first, then each addon) only the first, or all but
+\* the first, are offered -- by the request and, in state signed-stamped, by the source header alike
+Combos == {[type |-> t, reason |-> a, ext |-> b, stamps |-> c, series |-> d, date |-> e, copytax |-> f, state |-> s, partial |-> ""] :
               t \in TypesAll, a \in BOOLEAN, b \in BOOLEAN, c \in BOOLEAN, d \in BOOLEAN, e \in BOOLEAN, f \in BOOLEAN, s \in States}
+          \cup {[type |-> t, reason |-> TRUE, ext |-> TRUE, stamps |-> c, series |-> FALSE, date |-> FALSE, copytax |-> FALSE, state |-> s, partial |-> p] :
+              t \in TypesAll \ {""}, c \in BOOLEAN, s \in {"signed-stamped", "signed", "draft"}, p \in {"first", "rest"}}
+Offered(all, p) == IF p = "first" /\ all # <<>> THEN <<all[1]>> ELSE IF p = "rest" /\ all # <<>> THEN Tail(all) ELSE all
 DefFamily == {<<[types |-> ts, extensions |-> <<>>, reason_required |-> rr, stamps |-> st, copy_tax |-> FALSE]>> :
                  ts \in {<<>>, <<"credit-note">>, <<"credit-note", "corrective">>}, rr \in BOOLEAN, st \in {<<>>, <<"p1">>}}
+             \cup {<<[types |-> <<>>, extensions |-> <<>>, reason_required |-> FALSE, stamps |-> <<"p1">>, copy_tax |-> FALSE],
+                     [types |-> <<>>, extensions |-> <<>>, reason_required |-> rr, stamps |-> st, copy_tax |-> FALSE]>> : rr \in BOOLEAN, st \in {<<>>, <<"p2">>, <<"p1">>}}
 VARIABLES combo, defs, verdict
 vars == <<combo, defs, verdict>>
 Ev == [combo |-> combo, defs |-> defs, src_code |-> IF combo.state = "nocode" THEN "" ELSE "001",
-       req_stamps |-> IF combo.stamps THEN <<"p1">> ELSE <<>>, src_stamps |-> IF combo.state = "signed-stamped" THEN <<"p1">> ELSE <<>>]
+       req_stamps |-> IF combo.stamps THEN Offered(AllStamps(defs), combo.partial) ELSE <<>>,
+       src_stamps |-> IF combo.state = "signed-stamped" THEN Offered(AllStamps(defs), combo.partial) ELSE <<>>]
+\* whenever one of several required stamps is offered by nobody, the correction is refused
+PartialRefused == (verdict # "pending" /\ combo.partial # "" /\ Cardinality(Stamps(defs)) >= 2) => verdict = "refuse"
 Init == combo \in Combos /\ defs \in DefFamily /\ verdict = "pending"
 Decide == verdict = "pending" /\ verdict' = (IF MustRefuse(Ev) THEN "refuse" ELSE "accept") /\ UNCHANGED <<combo, defs>>
 Spec == Init /\ [][Decide]_vars
 \* some request is acceptable for every definition (the rules are satisfiable)
 Satisfiable == \A d \in DefFamily : \E c \in Combos :
-                  ~MustRefuse([combo |-> c, defs |-> d, src_code |-> "001", req_stamps |-> <<"p1">>, src_stamps |-> <<>>])
+                  ~MustRefuse([combo |-> c, defs |-> d, src_code |-> "001", req_stamps |-> AllStamps(d), src_stamps |-> <<>>])
 NoCodeRefused == (verdict # "pending" /\ combo.state = "nocode") => verdict = "refuse"
 Export == IF "OUT" \in DOMAIN IOEnv THEN ndJsonSerialize(IOEnv.OUT, SetToSeq(Combos)) ELSE TRUE
 ASSUME Export
